@@ -295,7 +295,7 @@ def reset_stops_loop(ctx, sr, eng, f, st, evs, clear_idx):
         if b in exit_ok:
             continue
         for s2 in body.succs(b):
-            if s2 not in blocks and not body.blocks[s2].get('cleanup'):
+            if s2 not in blocks and not body.blocks[s2].get('cleanup') and body.blocks[s2]['term']['k'] != 'unreachable':
                 return 'the loop that installs the stops can be left early (bb%d -> bb%d)' % (b, s2)
     for (sg, ins, lev) in by_head[h]:
         s_ = sg['st']
@@ -787,6 +787,20 @@ def run_c16(ctx, chk):
             bad.append('drops %s rows (documented: old - new)' % (g.term(eng, st, cnt_v) if isinstance(cnt_v, NumV) else cnt_v))
     chk.instance('R-RESIZE', short(f), 'surplus rows are deleted at row 0 with no region set', bool(snaps) and not bad, detail='; '.join(sorted(set(bad))) or '%d call states' % len(snaps),
                  span=body.span, what='; '.join(sorted(set(bad))) or 'no delete_lines call found on the shrinking path')
+    # the DECCOLM 132-column round trip: entering remembers the current width, leaving returns to it
+    from .rules_screen import run_modes
+    for set_ in (True, False):
+        for (num, private) in ((3, True), (DECCOLM, False)):
+            name = 'set_mode' if set_ else 'reset_mode'
+            try:
+                e2, r2 = run_modes(ctx, [num], private, set_)
+                probs = [p_ for p_ in mode_effects(e2, r2, DECCOLM, set_) if 'width' in p_ or 'remembered' in p_]
+            except Budget as ex:
+                probs = [str(ex)]
+                r2 = []
+            chk.instance('R-RESIZE', 'Screen::' + name, 'DECCOLM %s: %s' % ('?3' if private else str(DECCOLM), 'remembers the width it leaves' if set_ else 'returns to the remembered width'),
+                         bool(r2) and not probs, detail='; '.join(probs[:2]) or '%d exit paths' % len(r2), span=prog.bodies[ep(name)].span,
+                         what='%s(&[%d], %s): %s' % (name, num, str(private).lower(), '; '.join(probs[:2])))
     # exit invariant for the new bounds is C09 (R-INV); repeat the two cursor clauses here
     for c in ('I2.x', 'I2.y'):
         bad = []
@@ -900,6 +914,11 @@ def run_c12(ctx, chk):
                      what='%s never tests %s' % (meth, cname))
     from .rules_screen import decscnm_dirty
     decscnm_dirty(ctx, chk)
+    # through the parser: SM / RM reach the screen with exactly the numbers typed and with the private
+    # flag of *this* sequence (a `?` seen in an earlier, abandoned sequence must not leak)
+    from . import rules_c03 as r3
+    tables = r3.dispatch_tables(ctx, chk, quiet=True)
+    r3.run_fsm(ctx, chk, tables, prop='C12', focus='modes')
 
 
 def run_modes_from(ctx, modes, private, set_, initial):
@@ -938,7 +957,19 @@ def mode_effects(eng, res, eff, set_):
                 if not (isinstance(p, NumV) and eng.prove_cmp(st, 'eq', p, c0) is True):
                     probs.append('previous width not remembered (%r)' % (sc,))
             else:
-                sc0 = None
+                # leaving 132-column mode returns to the remembered width (and forgets it)
+                sc0 = st.vn.get(('entry', 'saved_columns'))
+                tag = st.vn.get(('tagof', sc0.eid)) if isinstance(sc0, EnumV) and sc0.eid is not None else None
+                w0 = sc0.payload[1].fields.get('0') if isinstance(sc0, EnumV) and sc0.payload.get(1) else None
+                was132 = eng.prove_cmp(st, 'eq', c0, NumV(None, 132, 'u32'))
+                if tag == 1 and was132 is True and isinstance(w0, NumV):
+                    if eng.prove_cmp(st, 'eq', cols, w0) is not True:
+                        probs.append('width becomes %s, documented the width remembered when 132-column mode was entered' % g.term(eng, st, cols))
+                    scf = get(eng, st, 'saved_columns')
+                    if not (isinstance(scf, EnumV) and scf.tags == {0}):
+                        probs.append('the remembered width is not forgotten')
+                elif (tag == 0 or was132 is False) and geom:
+                    probs.append('the width changes although there is nothing to return to')
             home_ok = eng.prove_cmp(st, 'eq', x, NumV(None, 0, 'u32')) is True
             if not home_ok:
                 probs.append('cursor column %s after DECCOLM, documented home' % g.term(eng, st, x))
@@ -1093,5 +1124,37 @@ def run_c04(ctx, chk):
     chk.instance('R-PLT', short(draw), 'pending wrap + autowrap off: the character overwrites the last column(s)', n_pw > 0 and not bad,
                  detail='; '.join(sorted(set(bad))[:2]) or '%d iteration paths in that state' % n_pw, span=prog.bodies[draw].span,
                  what='; '.join(sorted(set(bad))[:2]) or 'no iteration path with pending wrap and autowrap off was found')
+    # only a character of display width 0 is joined to the previous cell: on every iteration path that
+    # rewrites the text of an existing cell, the width of the drawn character was measured and is 0
+    bad = []
+    n_comb = 0
+    for s in segs + [dict(st=st_, head=None, func=draw) for r_ in sr['results'].get(draw, []) for (st_, _ret) in r_.finals]:
+        st = s['st']
+        if s['head'] is not None:
+            pre, evs = g.seg_events(dict(kind='backedge', st=st, func=draw, head=s['head']))
+        else:
+            evs = st.event_list()
+            lh = [i for i, ev in enumerate(evs) if ev[0] == 'loop-head' and ev[1] == draw]
+            evs = evs[lh[-1] + 1:] if lh else evs
+        joins = [ev for ev in evs if ev[0] == 'w' and ev[1] and ev[1][0] == 'buffer' and ev[1][-1] == 'data']
+        if not joins:
+            continue
+        n_comb += 1
+        ws = [(k, v) for k, v in st.vn.items() if isinstance(k, tuple) and k and k[0] == 'width' and isinstance(v, NumV)]
+        if not ws:
+            bad.append('a character is joined to the previous cell without its display width having been measured')
+        else:
+            zero = False
+            for k, w in ws:
+                eid = st.vn.get(('widthopt',) + k[1:])
+                if eid is not None and st.vn.get(('tagof', eid)) == 0:
+                    zero = True       # width() returned None: no columns
+                elif eng.prove_cmp(st, 'eq', w, NumV(None, 0, w.ty)) is True:
+                    zero = True
+            if not zero:
+                bad.append('a character whose display width is not known to be 0 is joined to the previous cell')
+    chk.instance('R-WIDTH', short(draw), 'only zero-width characters are joined to the previous cell', n_comb > 0 and not bad,
+                 detail='; '.join(sorted(set(bad))) or '%d joining iteration paths, width 0 on each' % n_comb, span=prog.bodies[draw].span,
+                 what='; '.join(sorted(set(bad))) or 'no path that joins a mark to the previous cell was found')
     from .rules_c01 import panic_obligations
     panic_obligations(chk, 'C04', eng, only_funcs=funcs)
